@@ -260,6 +260,14 @@ def trust_part(job, r):
                 if q2.rc != 0 or q2.get('nfile') not in ('-1', '0'):
                     r.viol('constraints:file-specific-not-cleared', 'KSI_PublicationsFile_setCertConstraints(pf, NULL): rc=%#x, %s file specific constraint(s) still reported' % (q2.rc, q2.get('nfile')), '')
                 fs = ('cleared', None)
+            elif rng.random() < 0.5:
+                # an update that the setter has to refuse (an entry without a value) leaves the file's constraints as they were
+                q3 = c('pubfileconstraints 0 %s=%s 2.5.4.10' % (EMAIL, subj[EMAIL]))
+                if q3.rc == 0:
+                    r.viol('constraints:malformed-update-accepted', 'KSI_PublicationsFile_setCertConstraints accepted an array with an entry whose value is NULL', '')
+                elif q3.get('nfile') != str(len(fs_set)):
+                    r.viol('constraints:refused-update-leaves-trace', 'a refused KSI_PublicationsFile_setCertConstraints call (rc=%#x) changed the file specific constraints: %s reported, %d were in force' % (q3.rc, q3.get('nfile'), len(fs_set)), '')
+                r.count('file_specific_constraints_refused_update')
             r.count('file_specific_constraints_%s' % ('cleared' if fs[1] is None else 'in_force'))
         api = rng.choice(['verify', 'ctx'])
         v = c('pubfileverify 0 0 api=%s' % api)
